@@ -16,6 +16,7 @@ Docs == PoolCore
 X == Id(<<120>>)  A == Id(<<97>>)  B == Id(<<98>>)
 Fn(name, args) == <<Id(name), LP>> \o args \o <<RP>>
 Tied == Json(<<96,91,123,34,107,34,58,49,44,34,115,34,58,34,98,34,44,34,112,34,58,49,125,44,123,34,107,34,58,50,44,34,115,34,58,34,97,34,44,34,112,34,58,50,125,44,123,34,107,34,58,48,44,34,115,34,58,34,98,34,44,34,112,34,58,51,125,44,123,34,107,34,58,50,44,34,115,34,58,34,97,34,44,34,112,34,58,52,125,44,123,34,107,34,58,48,44,34,115,34,58,34,99,34,44,34,112,34,58,53,125,44,123,34,107,34,58,50,44,34,115,34,58,34,98,34,44,34,112,34,58,54,125,93,96>>)
+Nulls == Json(<<96,91,110,117,108,108,44,123,34,107,34,58,49,125,44,110,117,108,108,44,123,34,107,34,58,50,44,34,106,34,58,55,125,44,102,97,108,115,101,44,123,34,107,34,58,51,44,34,106,34,58,56,125,44,123,34,107,34,58,49,44,34,106,34,58,110,117,108,108,125,93,96>>)
 E1 == { <<X>>, <<X, LB, Star, RB, Dot, A>>, <<Star>>, Fn(<<108,101,110,103,116,104>>, <<X>>), <<Json(<<96,49,96>>), PlusT, Json(<<96,50,96>>)>>,
         Fn(<<116,111,95,110,117,109,98,101,114>>, <<Raw(<<39,53,39>>)>>), Fn(<<107,101,121,115>>, <<CurT>>), <<X, LB, IntT(<<48>>), RB>>, Fn(<<116,111,95,115,116,114,105,110,103>>, <<B>>),
         Fn(<<109,101,114,103,101>>, <<CurT, Comma, Json(<<96,123,34,122,34,58,91,49,93,125,96>>)>>), <<X, Filt, A, RB>>, <<LBr, Id(<<107>>), Colon, X, Comma, Id(<<110>>), Colon>> \o Fn(<<108,101,110,103,116,104>>, <<CurT>>) \o <<RBr>>,
@@ -36,7 +37,14 @@ E1 == { <<X>>, <<X, LB, Star, RB, Dot, A>>, <<Star>>, Fn(<<108,101,110,103,116,1
         Fn(<<114,101,118,101,114,115,101>>, <<Tied>>), Fn(<<115,111,114,116>>, <<Tied, LB, Star, RB, Dot, Id(<<107>>)>>), Fn(<<109,97,112>>, <<AmpT, Id(<<112>>), Comma, Tied>>),
         Fn(<<109,97,120,95,98,121>>, <<Tied, Comma, AmpT, Id(<<107>>)>>), Fn(<<109,105,110,95,98,121>>, <<Tied, Comma, AmpT, Id(<<107>>)>>),
         Fn(<<118,97,108,117,101,115>>, Fn(<<103,114,111,117,112,95,98,121>>, <<Tied, Comma, AmpT, Id(<<115>>)>>)), <<Tied>> \o <<Filt, Id(<<107>>), GtT, Json(<<96,48,96>>), RB>>,
-        <<Tied>> \o <<LB, Colon, Colon, IntT(<<45,49>>), RB>>, Fn(<<122,105,112>>, <<Tied, Comma, Tied>>), Fn(<<116,111,95,97,114,114,97,121>>, <<Tied>>), <<Tied>> \o <<LB, Star, RB>> }
+        <<Tied>> \o <<LB, Colon, Colon, IntT(<<45,49>>), RB>>, Fn(<<122,105,112>>, <<Tied, Comma, Tied>>), Fn(<<116,111,95,97,114,114,97,121>>, <<Tied>>), <<Tied>> \o <<LB, Star, RB>>,
+        \* projections over an array with NULL elements in front of and between the others, under predicates that
+        \* hold for null and right-hand sides that are null for some elements: what a projection drops must be
+        \* dropped before an index that follows a pipe counts
+        <<Nulls, Filt, Id(<<107>>), NeT, Json(<<96,50,96>>), RB>>, <<Nulls, Filt, NotT, CurT, RB>>, <<Nulls, Filt, CurT, EqT, Json(<<96,110,117,108,108,96>>), RB>>,
+        <<Nulls, Filt, NotT, Id(<<106>>), RB>>, <<Nulls, Filt, Id(<<107>>), NeT, Json(<<96,50,96>>), RB, Dot, Id(<<106>>)>>, <<Nulls, Filt, CurT, RB, Dot, Id(<<106>>)>>,
+        <<Nulls, LB, Star, RB>>, <<Nulls, LB, Star, RB, Dot, Id(<<106>>)>>, <<Nulls, Flat>>, <<Nulls, Flat, Dot, Id(<<106>>)>>, <<Nulls, LB, Colon, RB>>,
+        <<Nulls, LB, IntT(<<49>>), Colon, RB, Dot, Id(<<106>>)>>, Fn(<<109,97,112>>, <<AmpT, Id(<<106>>), Comma, Nulls>>), Fn(<<110,111,116,95,110,117,108,108>>, <<Nulls>>) }
 E2 == { <<CurT>>, <<LB, IntT(<<48>>), RB>>, <<LB, Star, RB>>, <<A>>, Fn(<<108,101,110,103,116,104>>, <<CurT>>), Fn(<<116,121,112,101>>, <<CurT>>),
         <<CurT, EqT, CurT>>, Fn(<<116,111,95,115,116,114,105,110,103>>, <<CurT>>), Fn(<<115,111,114,116>>, <<CurT>>), <<Flat>>, Fn(<<107,101,121,115>>, <<CurT>>),
         <<CurT, PlusT, Json(<<96,49,96>>)>>, <<LB, Star, RB, Dot, A>>, Fn(<<116,111,95,97,114,114,97,121>>, <<CurT>>), Fn(<<114,101,118,101,114,115,101>>, <<CurT>>),
